@@ -418,14 +418,15 @@ def plan_search(ctx, R):
             nfail += 1
         elif i % 400 == 0:
             ctx.sample({"case": case})
-    # chunkings with zero-width blocks (arise from boolean masks + compute_chunk_sizes): search only
+    # chunkings with zero-width blocks (arise from boolean masks + compute_chunk_sizes); since bb7113a they
+    # are returned unplanned ([new]) and the model mirrors that
     nz = 0
     for _ in range(N // 5):
         case = rand_case(rng, rng.choice([6, 12]), zeros=0.5)
         if not any(c == 0 for dim in case["old"] + case["new"] for c in dim):
             continue
         nz += 1
-        check_plan_case(ctx, R, case, None, None)
+        check_plan_case(ctx, R, case, pairs, reach)
     ctx.notes["plans_checked"] = N
     ctx.notes["plans_with_zero_width_chunks"] = nz
     ctx.notes["plans_failing_property"] = nfail
@@ -445,7 +446,8 @@ def plan_search(ctx, R):
 
 
 def known_probes(ctx, R):
-    """Dedicated probes for the listed known findings (print KNOWN-FINDING while they still fail)."""
+    """Regression probes: the inputs of the two defects fixed by 28665a6 (budget:bound_degree) and bb7113a
+    (plan:raises:zero-width); they fail again if either fix is lost."""
     check_plan_case(ctx, R, dict(KNOWN_BOUND_DEGREE))
     check_plan_case(ctx, R, dict(KNOWN_ZERO_WIDTH))
 
@@ -558,7 +560,8 @@ def run(ctx, replay=None):
         "float-derived planner choices (sort order, chunk_limit, max_number, nsteps, count) are recorded from the real run "
         "and given to the model as oracle values; the model checks chunk_limit ≥ 1, chunk_limit·largest_block ≤ budget·width "
         "and that the order is a permutation of the merge candidates (rel=1)",
-        "merge_to_number is compared on positive widths only (with zero-width entries the Python raises: probe plan:raises:zero-width)",
+        "merge_to_number is compared on positive widths only (with zero-width entries the Python helper raises; plan_rechunk "
+        "never passes such an axis since bb7113a — regression probe plan:raises:zero-width)",
         "threshold, itemsize, limit are integers (the configuration values are); the termination of the `while True` loop is "
         "checked by a watchdog on every generated case, not proved",
     ]
